@@ -45,7 +45,7 @@ SUPPORT = {
     'DistPearson5': ('> 0', lambda iv: iv.gt0()),
     'DistPearson6': ('>= 0', lambda iv: iv.ge0()),
     'DistLogNormal': ('> 0', lambda iv: iv.gt0()),
-    'DistBeta': ('>= 0', lambda iv: iv.ge0()),
+    'DistBeta': ('in [0, 1]', lambda iv: iv.ge0() and iv.hi <= 1.0),
     'DistBernoulli': ('in {0, 1}', lambda iv: iv.isint and iv.lo >= 0 and iv.hi <= 1),
     'DistBinomial': ('integer >= 0', lambda iv: iv.isint and iv.ge0()),
     'DistGeometric': ('integer >= 0', lambda iv: iv.isint and iv.ge0()),
